@@ -986,7 +986,7 @@ func c41producerTopics(c *Ctx, m *Module) {
 						return true
 					}
 					if p, op, ok := lockOp(f, d2.Call); ok && op == "Unlock" && p == want {
-						if l2, ok := g.LocOf(d2); ok && g.Dominates(l2, dl) {
+						if l2, ok := g.LocOf(d2); ok && g.DominatesReg(l2, dl) {
 							unlockFirst = true
 						}
 					}
